@@ -7,7 +7,7 @@ cd $wt || exit 2
 git checkout -q -- . ; git clean -fdq
 # demo files: either a single zz_seed_demo_test.go (meta says where) or a pkg/ tree
 if [ -d $sd/pkg ]; then cp -r $sd/pkg/. $wt/pkg/; else
-  pkgdir=$(grep -m1 -o 'pkg/[a-z]*' $sd/patch.diff | head -1); cp $sd/zz_seed_demo_test.go $wt/$pkgdir/; fi
+  pkgdir=$(grep -v '^#' $sd/demo_cmd.txt | grep -m1 -o 'pkg/[a-z]*' | head -1); cp $sd/zz_seed_demo_test.go $wt/$pkgdir/; fi
 cmd=$(cat $sd/demo_cmd.txt | grep -v '^#' | grep -m1 'go test')
 echo "demo cmd: $cmd"
 ( eval "$cmd" ) > /tmp/sv.$id.without 2>&1; r0=$?
